@@ -40,12 +40,12 @@ described in detail in this documentation.
 
 from ._vendor.nocasedict import NocaseDict as _NocaseDict
 from ._vendor.nocasedict import HashableMixin, KeyableByMixin
+# Default value of parameters for detecting that they have not been specified
+# as an argument. It must be the very object used by the nocasedict package,
+# because pop() passes it through to that package.
+from ._vendor.nocasedict._nocasedict import _OMITTED
 
 __all__ = ['NocaseDict']
-
-# Used as default value for parameters to detect that they have not been
-# specified as an argument. Must match the definition in nocasedict package.
-_OMITTED = object()
 
 
 class NocaseDict(HashableMixin, KeyableByMixin('name'), _NocaseDict):
